@@ -424,7 +424,8 @@ def run_fama(ctx):
         base = "/repo/resources/models"
         files = sorted(glob.glob(base + "/fama_test_suite/**/*.xml", recursive=True)) + sorted(glob.glob(base + "/simple/*.xml"))
         synth = sorted(glob.glob(base + "/synthetic/**/*.xml", recursive=True))
-        if ctx.tier == "quick":
+        if ctx.tier == "quick" or ctx.prop != "C09":
+            # the whole corpus (up to 20 000 features per file) is read by the thorough tier of C09 only
             small = [f for f in synth if int(f.split("/")[-2]) <= 1000]
             g.rng.shuffle(small)
             files += small[:60]
